@@ -27,6 +27,8 @@ mod c11_expr;
 mod c16_subst;
 #[path = "../loaddump.rs"]
 mod loaddump;
+#[path = "../loadscen.rs"]
+mod loadscen;
 
 fn main() {
     let args: Vec<String> = std::env::args().collect();
@@ -58,6 +60,8 @@ fn main() {
         "defs" => loaddump::defs(&opts),
         "loaddump" => loaddump::loaddump(&opts),
         "jsondefs" => loaddump::jsondefs(&opts),
+        "loadone" => loadscen::loadone(&opts),
+        "loadscen" => loadscen::run(&opts),
         "c11-one" => c11_expr::one(&opts),
         "c05-one" => c05_digits::one(&opts),
         "c07-one" => gen_names::one(&opts),
